@@ -31,7 +31,77 @@ type lwRand struct {
 	json  bool // JSON mode: Option payloads must not encode as null unless the field is marked loose
 	depth int  // nesting depth of container generators (bounds recursive struct values)
 	nz    bool // every struct field gets a non-zero, non-empty value where its type has one (lwNZ)
+	edge  int  // value-law edge iterations (C07 only, never in JSON mode): 0 = PRNG draw, 1..lwEdgeClasses = forced edge class, -1 = one class drawn per top-level value
 }
+
+// Edge classes of the forced value pool (lwPair). A generator consults at() first; only values at
+// container depth 0 are forced, everything below is an ordinary draw unless a container asks for
+// a class explicitly (lwAt).
+//
+//	1 NIL    nil pointer / slice / map / func / chan / interface, None, zero basic value, ""
+//	2 EMPTY  empty non-nil slice / map (no capacity), pointer to the zero value, Some(<NIL>) = Some(typed nil)
+//	3 CAP    empty slice WITH capacity, Some(<EMPTY>)
+//	4 ONE    one-element slice / map whose element is <NIL>, pointer to <NIL>, Some(<CAP>)
+//	5, 6     Some(<ONE>), Some(<5>); everything else an ordinary draw
+const lwEdgeClasses = 6
+
+func (r *lwRand) at() int {
+	if r.edge == 0 || r.depth > 0 {
+		return 0
+	}
+	if r.edge < 0 {
+		return r.n(lwEdgeClasses + 1)
+	}
+	return r.edge
+}
+
+// lwAt draws a component value at an explicit edge class (as if it stood at depth 0).
+func lwAt[T any](r *lwRand, g lwG[T], e int) T {
+	oe, od := r.edge, r.depth
+	r.edge, r.depth = e, 0
+	defer func() { r.edge, r.depth = oe, od }()
+	return g(r, false)
+}
+
+// lwPair draws the two values of one law iteration. k < 0: two ordinary draws (the PRNG stream of
+// the random iterations). k >= 0: the forced pool - class e = k/3+1 for x and a random y, a random
+// x and class e for y, or classes e / e+1 for both; k >= 3*lwEdgeClasses: every top-level field
+// value draws its own class. The class stays switched on for the body of the iteration, so the
+// payloads handed to WithSome / builder Some are edge values of the element type as well.
+func lwPair[T any](r *lwRand, k int, g func(*lwRand, bool) T) (x, y T) {
+	r.edge = 0
+	if k < 0 {
+		x, y = g(r, false), g(r, false)
+		return
+	}
+	if k >= 3*lwEdgeClasses {
+		r.edge = -1
+		x, y = g(r, false), g(r, false)
+		return
+	}
+	e := k/3 + 1
+	switch k % 3 {
+	case 0:
+		r.edge = e
+		x = g(r, false)
+		r.edge = 0
+		y = g(r, false)
+	case 1:
+		x = g(r, false)
+		r.edge = e
+		y = g(r, false)
+	default:
+		r.edge = e
+		x = g(r, false)
+		r.edge = e%lwEdgeClasses + 1
+		y = g(r, false)
+	}
+	r.edge = e
+	return
+}
+
+// lwEdgeIters: forced iterations appended to the random ones (3 per class + 6 mixed).
+const lwEdgeIters = 3*lwEdgeClasses + 6
 
 func lwNewRand(seed uint64, jsonMode bool) *lwRand { return &lwRand{s: seed*0x9e3779b97f4a7c15 + 0x1234567, json: jsonMode} }
 
@@ -84,6 +154,9 @@ type lwUnsigned interface {
 
 func lwInt[T lwSigned]() lwG[T] {
 	return func(r *lwRand, nn bool) T {
+		if e := r.at(); e == 1 || e == 2 {
+			return 0
+		}
 		bits := uint(reflect.TypeOf(T(0)).Bits())
 		min := int64(-1) << (bits - 1)
 		max := ^min
@@ -105,6 +178,9 @@ func lwInt[T lwSigned]() lwG[T] {
 
 func lwUint[T lwUnsigned]() lwG[T] {
 	return func(r *lwRand, nn bool) T {
+		if e := r.at(); e == 1 || e == 2 {
+			return 0
+		}
 		bits := uint(reflect.TypeOf(T(0)).Bits())
 		switch r.n(6) {
 		case 0:
@@ -120,6 +196,9 @@ func lwUint[T lwUnsigned]() lwG[T] {
 
 func lwFloat[T ~float32 | ~float64]() lwG[T] {
 	return func(r *lwRand, nn bool) T {
+		if e := r.at(); e == 1 || e == 2 {
+			return 0
+		}
 		is32 := reflect.TypeOf(T(0)).Bits() == 32
 		switch r.n(10) {
 		case 0:
@@ -163,12 +242,20 @@ func lwFloat[T ~float32 | ~float64]() lwG[T] {
 
 func lwComplex[T ~complex64 | ~complex128]() lwG[T] {
 	return func(r *lwRand, nn bool) T {
+		if e := r.at(); e == 1 || e == 2 {
+			return 0
+		}
 		return T(complex(float64(r.n(100)), float64(r.n(100))-50))
 	}
 }
 
 func lwBool[T ~bool]() lwG[T] {
-	return func(r *lwRand, nn bool) T { return T(r.n(2) == 0) }
+	return func(r *lwRand, nn bool) T {
+		if e := r.at(); e == 1 || e == 2 {
+			return false
+		}
+		return T(r.n(2) == 0)
+	}
 }
 
 var lwStrPieces = []string{"", "a", "hello world", "quote\"q", "back\\slash", "ctl\x00\x01\x1f\n\t\r\b\f", "<>&", "  ", "héllo",
@@ -176,6 +263,9 @@ var lwStrPieces = []string{"", "a", "hello world", "quote\"q", "back\\slash", "c
 
 func lwStr[T ~string]() lwG[T] {
 	return func(r *lwRand, nn bool) T {
+		if e := r.at(); e == 1 || e == 2 {
+			return ""
+		}
 		var sb strings.Builder
 		for k := r.n(4); k > 0; k-- {
 			if r.n(3) == 0 {
@@ -197,6 +287,12 @@ func lwZero[T any]() lwG[T] {
 // lwPick: vals[0] may be the null-encoding value (nil); it is skipped when nn is set.
 func lwPick[T any](vals ...T) lwG[T] {
 	return func(r *lwRand, nn bool) T {
+		switch e := r.at(); {
+		case e == 1:
+			return vals[0]
+		case e > 1 && len(vals) > 1:
+			return vals[1+r.n(len(vals)-1)]
+		}
 		if nn && len(vals) > 1 {
 			return vals[1+r.n(len(vals)-1)]
 		}
@@ -207,6 +303,13 @@ func lwPick[T any](vals ...T) lwG[T] {
 // lwIface: nil or one of the given implementations.
 func lwIface[T any](vals ...T) lwG[T] {
 	return func(r *lwRand, nn bool) T {
+		switch e := r.at(); {
+		case e == 1:
+			var z T
+			return z
+		case e > 1:
+			return vals[r.n(len(vals))]
+		}
 		if !nn && r.n(4) == 0 {
 			var z T
 			return z
@@ -217,6 +320,16 @@ func lwIface[T any](vals ...T) lwG[T] {
 
 func lwSliceOf[S ~[]E, E any](e lwG[E]) lwG[S] {
 	return func(r *lwRand, nn bool) S {
+		switch r.at() {
+		case 1:
+			return nil
+		case 2:
+			return S{}
+		case 3:
+			return make(S, 0, 4)
+		case 4:
+			return S{lwAt(r, e, 1)}
+		}
 		r.depth++
 		defer func() { r.depth-- }()
 		switch k := r.n(6); {
@@ -236,6 +349,17 @@ func lwSliceOf[S ~[]E, E any](e lwG[E]) lwG[S] {
 
 func lwMapOf[M ~map[K]V, K comparable, V any](kg lwG[K], vg lwG[V]) lwG[M] {
 	return func(r *lwRand, nn bool) M {
+		switch r.at() {
+		case 1:
+			return nil
+		case 2, 3:
+			return M{}
+		case 4:
+			r.depth++
+			k := kg(r, true)
+			r.depth--
+			return M{k: lwAt(r, vg, 1)}
+		}
 		r.depth++
 		defer func() { r.depth-- }()
 		switch k := r.n(6); {
@@ -255,6 +379,15 @@ func lwMapOf[M ~map[K]V, K comparable, V any](kg lwG[K], vg lwG[V]) lwG[M] {
 
 func lwPtrOf[T any](e lwG[T]) lwG[*T] {
 	return func(r *lwRand, nn bool) *T {
+		switch r.at() {
+		case 1:
+			return nil
+		case 2:
+			return new(T)
+		case 4:
+			v := lwAt(r, e, 1)
+			return &v
+		}
 		r.depth++
 		defer func() { r.depth-- }()
 		if !nn && (r.n(4) == 0 || r.depth > 4) {
@@ -268,6 +401,12 @@ func lwPtrOf[T any](e lwG[T]) lwG[*T] {
 // lwOptOf: loose = Some(null-encoding) payloads allowed even in JSON mode.
 func lwOptOf[T any](e lwG[T], loose bool) lwG[fp.Option[T]] {
 	return func(r *lwRand, nn bool) fp.Option[T] {
+		switch k := r.at(); {
+		case k == 1:
+			return fp.None[T]()
+		case k > 1:
+			return fp.Some(lwAt(r, e, k-1))
+		}
 		r.depth++
 		defer func() { r.depth-- }()
 		if !nn && (r.n(3) == 0 || r.depth > 4) {
@@ -281,6 +420,12 @@ var lwErrs = []error{errors.New("e0"), errors.New("e1"), errors.New("e2")}
 
 func lwTryOf[T any](e lwG[T]) lwG[fp.Try[T]] {
 	return func(r *lwRand, nn bool) fp.Try[T] {
+		switch k := r.at(); {
+		case k == 1:
+			return fp.Try[T]{}
+		case k > 1 && k < 5:
+			return fp.Success(lwAt(r, e, k-1))
+		}
 		switch r.n(4) {
 		case 0:
 			return fp.Try[T]{}
@@ -293,6 +438,14 @@ func lwTryOf[T any](e lwG[T]) lwG[fp.Try[T]] {
 
 func lwEitherOf[L, R any](l lwG[L], rg lwG[R]) lwG[fp.Either[L, R]] {
 	return func(r *lwRand, nn bool) fp.Either[L, R] {
+		switch r.at() {
+		case 1:
+			return nil
+		case 2:
+			return fp.Left[L, R](lwAt(r, l, 1))
+		case 3:
+			return fp.Right[L, R](lwAt(r, rg, 1))
+		}
 		switch r.n(4) {
 		case 0:
 			if !nn {
@@ -308,6 +461,9 @@ func lwEitherOf[L, R any](l lwG[L], rg lwG[R]) lwG[fp.Either[L, R]] {
 
 func lwFutureOf[T any](e lwG[T]) lwG[fp.Future[T]] {
 	return func(r *lwRand, nn bool) fp.Future[T] {
+		if r.at() == 1 {
+			return fp.Future[T]{}
+		}
 		switch r.n(3) {
 		case 0:
 			return fp.Future[T]{}
@@ -322,6 +478,12 @@ func lwFutureOf[T any](e lwG[T]) lwG[fp.Future[T]] {
 
 func lwFpMapOf[K comparable, V any](kg lwG[K], vg lwG[V]) lwG[fp.Map[K, V]] {
 	return func(r *lwRand, nn bool) fp.Map[K, V] {
+		switch r.at() {
+		case 1:
+			return fp.Map[K, V]{}
+		case 2, 3:
+			return mutable.MapOf(map[K]V{})
+		}
 		if r.n(3) == 0 {
 			return fp.Map[K, V]{}
 		}
@@ -335,6 +497,9 @@ func lwFpMapOf[K comparable, V any](kg lwG[K], vg lwG[V]) lwG[fp.Map[K, V]] {
 
 func lwTime() lwG[time.Time] {
 	return func(r *lwRand, nn bool) time.Time {
+		if e := r.at(); e == 1 || e == 2 {
+			return time.Time{}
+		}
 		switch r.n(6) {
 		case 0:
 			return time.Time{}
@@ -640,6 +805,93 @@ func (p *lwRep) strs(m *lwMeta, law string, got []string, want []string) {
 	}
 }
 
+// lwShape names the edge shape of a field value (evidence: which shapes the laws really saw).
+func lwShape(v reflect.Value) string {
+	if !v.IsValid() {
+		return "nil"
+	}
+	switch v.Kind() {
+	case reflect.Ptr:
+		switch {
+		case v.IsNil():
+			return "nil"
+		case lwZeroish(v.Elem()):
+			return "to-zero"
+		}
+		return "other"
+	case reflect.Slice:
+		switch {
+		case v.IsNil():
+			return "nil"
+		case v.Len() == 0 && v.Cap() > 0:
+			return "empty-capacious"
+		case v.Len() == 0:
+			return "empty"
+		case lwZeroish(v.Index(0)):
+			return "zero-element"
+		}
+		return "other"
+	case reflect.Map:
+		switch {
+		case v.IsNil():
+			return "nil"
+		case v.Len() == 0:
+			return "empty"
+		}
+		return "other"
+	case reflect.Func, reflect.Chan, reflect.Interface:
+		if v.IsNil() {
+			return "nil"
+		}
+		return "other"
+	}
+	if v.IsZero() {
+		return "zero"
+	}
+	return "other"
+}
+
+func lwKindName(v reflect.Value) string {
+	if !v.IsValid() {
+		return "interface"
+	}
+	return v.Kind().String()
+}
+
+// pool counts, per field of the value the laws of this iteration are evaluated on, the shape of
+// the field value: STAT pool.<kind>.<shape>, Option fields as pool.option.none /
+// pool.option.some-<shape>-<element kind>. forced = the value comes from the forced pool.
+func (p *lwRep) pool(m *lwMeta, x []any, forced bool) {
+	if forced {
+		p.stat("pool.forced-iterations", 1)
+	}
+	for j, v := range x {
+		rv := reflect.ValueOf(&v).Elem().Elem()
+		if m.isOpt[j] {
+			if !rv.Field(0).Bool() {
+				p.stat("pool.option.none", 1)
+				continue
+			}
+			in := rv.Field(1)
+			if in.Kind() == reflect.Interface && !in.IsNil() {
+				p.stat("pool.option.some-other-interface", 1)
+				continue
+			}
+			p.stat("pool.option.some-"+lwShape(in)+"-"+in.Kind().String(), 1)
+			continue
+		}
+		k := lwKindName(rv)
+		if rv.IsValid() && m.kinds[j] != "" && (m.kinds[j] == "iface" || m.kinds[j] == "any" || strings.HasPrefix(m.kinds[j], "emb-iface")) {
+			k = "interface" // a non-nil interface value shows its dynamic kind through any
+		}
+		sh := "other"
+		if k != "interface" || !rv.IsValid() {
+			sh = lwShape(rv)
+		}
+		p.stat("pool."+k+"."+sh, 1)
+	}
+}
+
 // recoverable: can FromMap recover this field value from AsMap by type assertion?
 func lwRecoverable(v any, isOpt bool) bool {
 	if v == nil {
@@ -701,6 +953,12 @@ func (p *lwRep) fromMap(m *lwMeta, law string, got, x []any) {
 	for j := range got {
 		if m.app[j] && lwRecoverable(x[j], m.isOpt[j]) && !lwEq(got[j], x[j]) {
 			p.fail(m.name, law, m.names[j], m.kinds[j], "got "+lwShow(got[j])+" want "+lwShow(x[j]))
+		}
+		if m.app[j] && m.isOpt[j] && lwRecoverable(x[j], true) {
+			// nil == empty for lwEq: a defined Option must come back DEFINED (Some(typed nil) is not None)
+			if in := reflect.ValueOf(x[j]).Field(1); lwShape(in) == "nil" {
+				p.stat(law+".option-some-typed-nil-demanded", 1)
+			}
 		}
 	}
 }
